@@ -1,7 +1,7 @@
 (* C16_formulas.v — international_gravity (five epochs) and welmec_gravity of ahrs/utils/wgs84.py:
    guard on the latitude, equator and pole values, symmetry, range, decrease with height. *)
 From Coq Require Import Reals List Lra.
-From AhrsLib Require Import Base Geodesy.
+From AhrsLib Require Import Base GeodesyBase.
 From AhrsGen Require Import C16gen_R.
 Import ListNotations.
 Open Scope R_scope.
